@@ -174,6 +174,8 @@ def flows_into(fn_node, sink_name: str, param: str | None = None) -> set[str]:
                 tgts, val = [n.target], n.iter
             elif isinstance(n, ast.AugAssign):
                 tgts, val = [n.target], n.value
+            elif isinstance(n, ast.comprehension):      # `... for child in (keys[i], values[i])`: the loop written as a comprehension
+                tgts, val = [n.target], n.iter
             if val is None:
                 continue
             s = srcs(val)
@@ -196,4 +198,25 @@ def flows_into(fn_node, sink_name: str, param: str | None = None) -> set[str]:
             tg = n.targets if isinstance(n, ast.Assign) else [n.target]
             if any(isinstance(t, ast.Name) and t.id == sink_name for t in tg):
                 out |= srcs(n.value)
+        elif isinstance(n, ast.Return) and isinstance(n.value, (ast.List, ast.ListComp, ast.BinOp)):
+            out |= srcs(n.value)           # the sequence is built in the return expression itself, no sink variable
+    return out
+
+
+def classes_mentioned(ctx, module: str, expr: ast.AST) -> set[str]:
+    """Names of the node classes an expression mentions: directly (`JoinedStr`), or through a module-level constant that evaluates to a
+    collection of classes (`ASTS_LEAF_FTSTR`, a local `_KINDS = (A, B)` hoisted out of a test).  A rule about "the arm for class K" must
+    not depend on whether K is spelled in the test or in a named constant."""
+    out = set()
+    for x in ast.walk(expr):
+        if not isinstance(x, ast.Name):
+            continue
+        try:
+            v = ctx.ev.get(module, x.id)
+        except Exception:
+            continue
+        if isinstance(v, ClassTok):
+            out.add(v.name)
+        elif isinstance(v, (tuple, list, set, frozenset)):
+            out |= {e.name for e in v if isinstance(e, ClassTok)}
     return out
